@@ -7,4 +7,6 @@ fn main() {
         .expect("Failed to execute git rev-parse HEAD.");
     let git_hash = String::from_utf8(output.stdout).unwrap().trim().to_string();
     println!("cargo:rustc-env=GIT_COMMIT={git_hash}");
+    // verification hooks are guarded by `--cfg ax_verif`; tell rustc that this cfg name is expected
+    println!("cargo:rustc-check-cfg=cfg(ax_verif)");
 }
